@@ -301,12 +301,15 @@ def normalize_url(
         port = None
 
     # Normalizing the path
+    # NOTE: an escaped dot is still a dot segment (escapes are already uppercase)
+    path = path.replace("%2E", ".")
+
     if path:
         trailing_slash = False
-        if path.endswith("/") and len(path) > 1:
+        if len(path) > 1 and path.rsplit("/", 1)[-1] in ("", ".", ".."):
             trailing_slash = True
         path = normpath(path)
-        if trailing_slash and not strip_trailing_slash:
+        if trailing_slash and not strip_trailing_slash and path:
             path = path + "/"
 
     # Handling Google AMP suffixes
